@@ -233,3 +233,8 @@ func ReplayMain(path string, hs map[string]func()) {
 	}()
 	fmt.Printf("SVDONE %d\n", len(failed))
 }
+
+// Setup runs f once per process (engine: once per worker, outside the
+// per-path undo log) and returns its result on every path. f must not
+// depend on symbolic values or make choices.
+func Setup(key string, f func() interface{}) interface{} { return f() }
